@@ -33,6 +33,8 @@ type lambda struct {
 	body   []val
 	env    *env
 	macro  bool
+	generic  bool // made by defgeneric / defmethod
+	noMethod bool // a generic function that has no method yet
 }
 
 type param struct {
@@ -368,7 +370,8 @@ func (m *refMachine) intArg(v val, op string) int {
 
 var specialForms = map[sym]bool{"quote": true, "function": true, "if": true, "let": true, "let*": true, "progn": true,
 	"setq": true, "cond": true, "when": true, "unless": true, "and": true, "or": true, "defun": true, "defmacro": true,
-	"defvar": true, "defparameter": true, "defconstant": true, "backquote": true, "lambda": true, "return-from": true}
+	"defvar": true, "defparameter": true, "defconstant": true, "backquote": true, "lambda": true, "return-from": true,
+	"defgeneric": true, "defmethod": true}
 
 var builtins = map[sym]bool{"+": true, "-": true, "*": true, "<": true, ">": true, "=": true, "list": true, "first": true,
 	"second": true, "third": true, "car": true, "cdr": true, "listp": true, "not": true, "null": true, "tr": true, "eval": true,
@@ -558,6 +561,36 @@ func (m *refMachine) evalList(l *lst, e *env) val {
 		m.funcs[name] = fn
 		m.definedGen[name]++
 		return name
+	case "defgeneric":
+		// a generic function without methods: every call fails until a method is defined
+		name := args[0].(sym)
+		if m.funcs[name] == nil || !m.funcs[name].generic {
+			m.funcs[name] = &lambda{name: string(name), generic: true, noMethod: true}
+			m.definedGen[name]++
+		}
+		return name
+	case "defmethod":
+		// one method, specialised on classes every argument of the programs belongs to: the generic function
+		// behaves like an ordinary function with that body (defmethod makes the generic function when it is missing)
+		name := args[0].(sym)
+		ll := &lst{}
+		if pl, ok := args[1].(*lst); ok {
+			for _, p := range pl.items {
+				if sp, isList := p.(*lst); isList {
+					ll.items = append(ll.items, sp.items[0])
+				} else {
+					ll.items = append(ll.items, p)
+				}
+			}
+		}
+		fn := m.makeLambda(string(name), ll, args[2:], nil, false)
+		fn.generic = true
+		for _, f := range fn.body {
+			m.noteSites(f, "plain")
+		}
+		m.funcs[name] = fn
+		m.definedGen[name]++
+		return name
 	case "return-from":
 		var v val
 		if 1 < len(args) {
@@ -733,6 +766,9 @@ func (m *refMachine) bind(fn *lambda, ne *env, argv []val) {
 }
 
 func (m *refMachine) apply(fn *lambda, argv []val) val {
+	if fn.noMethod {
+		m.fail("no-applicable-method", "no method of %s is applicable", fn.name)
+	}
 	if fn.body == nil && fn.params == nil && builtins[sym(fn.name)] {
 		items := []val{sym(fn.name)}
 		for _, a := range argv {
@@ -955,7 +991,7 @@ func (m *refMachine) noteSites(v val, pos string) {
 			m.fwdNames[name] = true
 		}
 		return
-	case "defun", "defmacro", "lambda":
+	case "defun", "defmacro", "lambda", "defgeneric", "defmethod":
 		return // its body becomes function objects when the definition / lambda form is evaluated
 	case "let", "let*":
 		if bl, ok := l.items[1].(*lst); ok {
